@@ -58,7 +58,7 @@ const (
 
 func parseMouseEvent(seq ansi.CSI) (Mouse, bool) {
 	mouse := Mouse{}
-	if len(seq.Intermediate) != 1 && seq.Intermediate[0] != '<' {
+	if len(seq.Intermediate) != 1 || seq.Intermediate[0] != '<' {
 		log.Error("[CSI] unknown sequence: %s", seq)
 		return mouse, false
 	}
